@@ -152,11 +152,29 @@ def py_spec(prog):
 def parse_obs(o):
     if not o.startswith("OLaid"):
         return o.split()[0], None
-    body = o[len("OLaid ["):-1]
+    m2 = re.match(r"OLaid \[(.*)\] \[([^\[\]]*)\]$", o)
+    body = m2.group(1) if m2 else o[len("OLaid ["):-1]
     out = []
     for m in re.finditer(r"None|Some \[([^\]]*)\]", body):
         out.append(None if m.group(0) == "None" else [int(x) for x in m.group(1).split(";") if x.strip()])
     return "OLaid", out
+
+
+def parse_printed(o):
+    """[(size, align) | None] as printed by print_program, or None when the observation has none."""
+    m2 = re.match(r"OLaid \[(.*)\] \[([^\[\]]*)\]$", o)
+    if not m2:
+        return None
+    return [None if m.group(0) == "None" else (int(m.group(1)), int(m.group(2)))
+            for m in re.finditer(r"None|Some \((\d+), (\d+)\)", m2.group(2))]
+
+
+def has_array_of_struct(prog):
+    def inside(t, in_arr):
+        if t[0] == "arr":
+            return inside(t[1], True)
+        return t[0] == "struct" and in_arr
+    return any(inside(t, False) for _, fs in prog for t in fs)
 
 
 def direct_oracle(prog, obs):
@@ -165,6 +183,11 @@ def direct_oracle(prog, obs):
     kind, offs = parse_obs(obs)
     if kind == "ODirty":
         return ("rejected-but-laid-out", "compute_layouts rejected the definitions but left field offsets written in the program")
+    if kind == "OPrintPanic":
+        return ("print-panics:array-of-struct" if has_array_of_struct(prog) else "print-panics",
+                "the structs are laid out, but print_program (the only place that reports size and alignment) panics on them")
+    if kind == "OTypeMismatch":
+        return ("lowered-field-type-mismatch", "a struct field declared with a struct type was lowered to a different AIR type")
     if len(set(names)) != len(names):
         return None                     # duplicate definitions: not a C translation unit; tie only
     defs = dict(prog)
@@ -208,11 +231,16 @@ def direct_oracle(prog, obs):
         return ("false-too-large", f"every size fits u32 (largest {big}) but the definitions were rejected as too large")
     if kind == "OLaid":
         want = [spec[n][0] for n in names]
-        if offs == want:
-            return None
         for i, n in enumerate(names):
             if offs[i] != want[i]:
                 return ("layout-mismatch", f"struct S{n}: offsets {offs[i]} but the C ABI gives {want[i]}")
+        printed = parse_printed(obs)
+        if printed is not None:
+            for i, n in enumerate(names):
+                if printed[i] != (spec[n][1], spec[n][2]):
+                    return ("printed-size-align-mismatch",
+                            f"struct S{n}: reported [size={printed[i][0]}, align={printed[i][1]}] but the C ABI gives size {spec[n][1]}, align {spec[n][2]}")
+        return None
     if kind == "ODiag":
         return ("false-diagnosis", "acyclic definitions diagnosed as recursive")
     return ("layout-failure:" + kind, f"acyclic, fully defined structs but compute_layouts gave {kind}")
@@ -402,7 +430,7 @@ def audit(cases):
     return dict(sorted(acc.items()))
 
 
-REQUIRED = (["outcome:OLaid", "outcome:ODiag:selfref", "outcome:ODiag:cycle", "outcome:OUnresolved", "outcome:OTooLarge",
+REQUIRED = (["class:src-wf->OLaid", "class:src-self->ODiag", "class:src-cycle->ODiag", "outcome:OLaid", "outcome:ODiag:selfref", "outcome:ODiag:cycle", "outcome:OUnresolved", "outcome:OTooLarge",
              "outcome:ONeedsContext", "outcome:OSizeAlign", "type:ptr", "type:slice", "type:struct-by-value", "type:array",
              "array-of-struct", "ptr-to-struct", "array-len:0", "array-len:1", "array-len:2-16", "array-len:17-300",
              "array-len:>=2^29", "array-depth:2", "array-depth:3", "nesting-depth:2", "nesting-depth:3", "nesting-depth:4",
@@ -613,7 +641,7 @@ def run(ctx):
                     oracle_fail += 1
                     ctx.violation("order-dependence", "the same struct definitions in two declaration orders give different layouts",
                                   {"order1": last_wf[2], "result1": last_wf[1], "order2": comp, "result2": o, "profile": prof})
-            if cls in ("wf-probes", "ptrcycle", "grid-pairs", "grid-align", "grid-array", "grid-nested") and o.startswith("OLaid"):
+            if cls in ("wf-probes", "ptrcycle", "grid-pairs", "grid-align", "grid-array", "grid-nested", "src-wf") and o.startswith("OLaid"):
                 by_prog.setdefault(comp, {"prog": prog, "cls": cls})[prof] = o
         pairs = [(q, o) for q, o, _, _, _ in cases]
         fails, err = vlib.coq_eval_cases("c18", IMPORTS, "run", "obs_eqb", pairs, shard=max(40, len(pairs) // 16 + 1))
@@ -624,7 +652,9 @@ def run(ctx):
         # outcome there depends on the processing order, which is not part of the contract: a
         # disagreement on such inputs is recorded, not reported
         drift = [i for i in fails if cases[i][3] == "dup"]
-        fails = [i for i in fails if cases[i][3] != "dup"]
+        # a panic of the printer on a laid-out program is reported by the direct oracle with its input
+        # (print-panics*), not a second time as a broken tie
+        fails = [i for i in fails if cases[i][3] != "dup" and cases[i][1] != "OPrintPanic"]
         if drift:
             ctx.cov["model_drift_on_duplicate_names"] = ctx.cov.get("model_drift_on_duplicate_names", 0) + len(drift)
             ctx.notes.append(f"{prof}: model and implementation differ on {len(drift)} inputs with duplicate struct names "
@@ -668,7 +698,7 @@ def run(ctx):
         p = e["prog"]
         sp = py_spec(p)
         spec_pairs.append(("QSpec " + coq_prog(p),
-                           "OLaid [" + "; ".join("Some [%s]" % "; ".join(str(x) for x in sp[n][0] + [sp[n][1], sp[n][2]]) for n, _ in p) + "]"))
+                           "OSpec [" + "; ".join("Some [%s]" % "; ".join(str(x) for x in sp[n][0] + [sp[n][1], sp[n][2]]) for n, _ in p) + "]"))
     fails, err = vlib.coq_eval_cases("c18s", IMPORTS, "run", "obs_eqb", spec_pairs, shard=max(20, len(spec_pairs) // 16 + 1))
     if err or fails:
         ctx.broken.append(f"spec cross-check: Model/SysV.v and the Python oracle's SysV rules differ on {len(fails)} programs" if fails
@@ -701,13 +731,14 @@ def run(ctx):
                 for prof in ("dev", "release"):
                     if prof in e:
                         _, offs = parse_obs(e[prof])
-                        if offs != [v[:-2] for v in per]:
+                        printed = parse_printed(e[prof])
+                        if offs != [v[:-2] for v in per] or (printed is not None and printed != [tuple(v[-2:]) for v in per]):
                             impl_bad += 1
                             if impl_bad == 1:
                                 ctx.violation("clang-mismatch", "offsets computed by compute_layouts differ from clang's __builtin_offsetof/sizeof/_Alignof",
                                               {"program": comp, "implementation": e[prof], "clang": per, "profile": prof})
                 cl_pairs.append(("QSpec " + coq_prog(p),
-                                 "OLaid [" + "; ".join("Some [%s]" % "; ".join(map(str, v)) for v in per) + "]"))
+                                 "OSpec [" + "; ".join("Some [%s]" % "; ".join(map(str, v)) for v in per) + "]"))
             fails, err = vlib.coq_eval_cases("c18c", IMPORTS, "run", "obs_eqb", cl_pairs, shard=max(20, len(cl_pairs) // 16 + 1))
             if bad or fails or err:
                 ctx.broken.append(f"clang validation: the SysV specification disagrees with clang on {max(bad, len(fails))} programs")
